@@ -408,7 +408,10 @@ class Sim(object):
                 me.sem.acquire()
                 raise SimAbort()
             return
-        if self.step - self.last_progress > self.no_progress_cap:
+        # every poller costs steps: with 16 polling workers under a strict-priority schedule the dispatcher gets one step
+        # in fifty, so the budget of "steps without progress" grows with the number of live tasks
+        live = sum(1 for t in self.tasks if t.state != "done")
+        if self.step - self.last_progress > self.no_progress_cap * max(1, live // 4):
             self._finish("no_progress")
             if me.state != "done":
                 me.sem.acquire()
